@@ -186,6 +186,11 @@ MIRSYM("make_tree_step", ["C01", "C15", "C20"],
        "1 <= |S| <= 2 (thorough 3) over a 16-id universe, split_after 1..=3, all side decisions symbolic, used node ids {0,2}; fair-RNG assumption for the random fallback (both sides non-empty)",
        _lazy("e2_tree", "make_tree_obligation"), site="Writer::make_tree_in_file")
 
+MIRSYM("node_ids_interleavings", ["C13"],
+       "from every state ConcurrentNodeIds::new can produce, under every sequentially consistent interleaving of the atomic steps of k threads x m calls of next(): every returned Ok(id) is not in use and pairwise distinct",
+       "used sets over a 16-id universe (incl. the moment recycled ids run out); (k,m) in {2x1, 2x2} quick, + {3x1, 2x3, 3x2} thorough; atomic step = one atomic access of the MIR",
+       _lazy("e2_ids"), site="ConcurrentNodeIds::next")
+
 PROPS = {}
 
 KANI_NOTE = ("Trusted: Kani/CBMC and rustc MIR semantics; the environment models in /verif/models (heed store, "
@@ -305,6 +310,16 @@ P("C01", "Every tree of a built index covers exactly the live items, each once",
   bounds={"forest": "1 tree, depth <= 2, <= 6 items", "universe": "16 ids", "split_after": "1..=3"},
   outside_claim=["composition over build", "rayon (C13)", "batching with > 200 leaves (C14)", "real roaring/LMDB behaviour"],
   assumptions=["Inv(F, I) as in DESIGN.md section 3"])
+P("C13", "Parallel tree updates never collide, whatever the thread schedule",
+  "symbolic execution of the rustc MIR of ConcurrentNodeIds::new/next into per-path thread summaries (atomic accesses as events), then one SMT formula over symbolic timestamps and reads-from relations decided by z3 for all schedules at once",
+  "Bounded model checking of the id generator: all sequentially consistent schedules of k x m requests and all initial used sets within the bounds are covered by a single solver query per configuration, with a completion witness against vacuity.",
+  level_note="Trusted: rustc MIR semantics, z3, sequential consistency as the memory model (weak-memory reorderings are outside the claim), the bit-set model of the `available` bitmap; rayon's scheduling of whole trees and the hand-written Sync impls are not decidable here.",
+  stubs_and_models=["atomics in event mode (read / write / rmw events with symbolic timestamps)", "RoaringBitmap = 16-bit bit-set"],
+  functions_encoded=["ConcurrentNodeIds::new", "ConcurrentNodeIds::next", "Writer::used_tree_node (Kani, initial state)"],
+  bounds={"threads x calls": "2x1, 2x2 (quick); 3x1, 2x3, 3x2 (thorough)", "ids": "16"},
+  outside_claim=["weak memory", "rayon / Sync impls", "thread pools of 1..16 threads on whole builds"],
+  assumptions=["SC atomics"])
+claim("C13")
 claim("C01")
 claim("C03")
 claim("C12")
